@@ -83,7 +83,7 @@ func Harness_C14_leak_forms() {
 
 // the address travels through one transport between the allocation and the leaked / accessed values
 func Harness_C14_leak_through_transport() {
-	t := verifPick("transport", 0, 26)
+	t := verifPick("transport", 0, dataflow.VerifNumTransports-1)
 	variant := verifPick("variant", 0, 1)
 	leak := verifPick("leak", 0, 1) * 5 // go statement in main / inside a summarized callee
 	leakAt := verifPick("leakAt", 0, 1)
